@@ -90,9 +90,21 @@ def extract(repo=REPO, fresh=False, target_dir=None):
         if not fresh and os.path.exists(ok_marker):
             info["cached"] = True
             info["extract_s"] = 0.0
+            os.utime(out, None)
             return out, info
-        if os.path.exists(out):
-            shutil.rmtree(out)
+        # never remove or rewrite a fact set another process may be reading (checks run concurrently): a fresh extraction, or a
+        # repair of an incomplete set, goes into a directory of its own
+        if fresh:
+            # a set extracted from scratch for this very tree (same hash of all sources and of the driver) a moment ago by a
+            # concurrent thorough run is as fresh as one made now
+            for d in sorted(glob.glob(out + ".*"), key=os.path.getmtime, reverse=True):
+                if os.path.exists(os.path.join(d, "OK")) and time.time() - os.path.getmtime(os.path.join(d, "OK")) < 600:
+                    info["cached"] = "fresh set of a concurrent run"
+                    info["extract_s"] = 0.0
+                    return d, info
+        if fresh or os.path.exists(out):
+            out = out + "." + uuid.uuid4().hex[:8]
+            ok_marker = os.path.join(out, "OK")
         os.makedirs(out)
         tdir = target_dir or os.path.join(CACHE, "target")
         if fresh and target_dir is None:
@@ -131,11 +143,12 @@ def extract(repo=REPO, fresh=False, target_dir=None):
                 raise ExtractError("stale fact file for crate %s (nonce mismatch)" % crate)
         with open(ok_marker, "w") as f:
             f.write(nonce)
-        # keep the cache small: retain the 6 most recent fact sets
+        # keep the cache small: beyond the 12 most recent fact sets, drop those nobody has touched for half an hour
         root = os.path.join(CACHE, "facts")
         sets = sorted((os.path.getmtime(os.path.join(root, d)), d) for d in os.listdir(root))
-        for _, d in sets[:-6]:
-            shutil.rmtree(os.path.join(root, d), ignore_errors=True)
+        for mt, d in sets[:-12]:
+            if time.time() - mt > 1800:
+                shutil.rmtree(os.path.join(root, d), ignore_errors=True)
         info["extract_s"] = round(time.time() - t0, 2)
         return out, info
 
